@@ -162,3 +162,42 @@ def write_mask_case(work, rng, H, W, arr_origin, arr_shape, window):
     return dict(oracle_ok=bool(ok), err=err, desc=dict(H=H, W=W, arr_origin=[ar, ac], arr_shape=[ah, aw], window=list(window), dataset_nodata=None,
                                                        array_invalid=int((~valid).sum())),
                 observed=dict(mask_mismatches=int((mask != exp_m).sum()) if err is None else None))
+
+
+def write_blocks_case(work, rng, H, W):
+    """Several blocks written one after the other into a FRESH dataset without a nodata value (what fuse does with nodata = None): the blocks tile
+    the dataset, some are valid everywhere, some hold invalid pixels, the order is shuffled.  Reading back returns what was written: pixels
+    and validity of every block at its place."""
+    from homonim.raster_array import RasterArray
+    path = work / 'io_wb.tif'
+    rs = sorted({0, H} | {rng.randint(1, H - 1) for _ in range(rng.randint(1, 2))})
+    cs = sorted({0, W} | {rng.randint(1, W - 1) for _ in range(rng.randint(1, 2))})
+    tiles = [(r0, c0, r1 - r0, c1 - c0) for r0, r1 in zip(rs[:-1], rs[1:]) for c0, c1 in zip(cs[:-1], cs[1:])]
+    rng.shuffle(tiles)
+    vals = np.array([[rng.randint(1, 250) for _ in range(W)] for _ in range(H)], dtype='float32')
+    valid = np.ones((H, W), bool)
+    kinds = []
+    for i, (r, c, h, w) in enumerate(tiles):
+        kind = ['all-valid', 'some-invalid', 'all-valid', 'all-invalid'][i % 4] if len(tiles) > 1 else 'some-invalid'
+        kinds.append(kind)
+        if kind == 'some-invalid':
+            valid[r + rng.randrange(h), c + rng.randrange(w)] = False
+        elif kind == 'all-invalid':
+            valid[r:r + h, c:c + w] = False
+    prof = dict(driver='GTiff', width=W, height=H, count=1, dtype='float32', crs=synth.UTM, transform=T0, nodata=None)
+    err = None
+    with rio.Env(GDAL_NUM_THREADS=1, GDAL_TIFF_INTERNAL_MASK=True), rio.open(path, 'w', **prof) as ds:
+        for (r, c, h, w) in tiles:
+            arr = np.where(valid[r:r + h, c:c + w], vals[r:r + h, c:c + w], np.float32('nan')).astype('float32')
+            ra = RasterArray(arr, synth.UTM, T0 * Affine.translation(c, r), nodata=float('nan'))
+            try:
+                ra.to_rio_dataset(ds, indexes=1, window=Window(c, r, w, h))
+            except Exception as ex:      # noqa: BLE001
+                err = f'{type(ex).__name__}: {str(ex)[:120]}'
+    with rio.Env(GDAL_TIFF_INTERNAL_MASK=True), rio.open(path) as ds:
+        after = ds.read(1)
+        mask = ds.dataset_mask() > 0
+    ok = err is None and np.array_equal(mask, valid) and bool(np.all((after == vals) | ~valid))
+    return dict(oracle_ok=bool(ok), err=err, desc=dict(H=H, W=W, tiles=[list(t) for t in tiles], tile_kinds=kinds, dataset_nodata=None),
+                observed=dict(mask_mismatches=int((mask != valid).sum()) if err is None else None, valid_expected=int(valid.sum()),
+                              valid_read=int(mask.sum()) if err is None else None))
